@@ -97,12 +97,20 @@ func c02Configs(s string) []c02Cfg {
 	accOnly.SetAccessorMode()
 	funcs := Config(false, nil)
 	acc := Config(true, nil)
+	out := c02ConfigsBase(s, &empty, &funcs, &acc, &accOnly)
+	if names := c02FnNames(s); len(names) > 0 {
+		out = append(out, c02Cfg{name: "both", cfg: c02BothConfig(names, c02Hash(s)%3 == 0), acc: c02Hash(s)%3 == 0, dyn: true})
+	}
+	return out
+}
+
+func c02ConfigsBase(s string, empty, funcs, acc, accOnly *jsonpath.Config) []c02Cfg {
 	return []c02Cfg{
 		{name: "none"},
-		{name: "empty", cfg: &empty},
-		{name: "funcs", cfg: &funcs},
-		{name: "acc", cfg: &acc, acc: true},
-		{name: "acconly", cfg: &accOnly, acc: true},
+		{name: "empty", cfg: empty},
+		{name: "funcs", cfg: funcs},
+		{name: "acc", cfg: acc, acc: true},
+		{name: "acconly", cfg: accOnly, acc: true},
 		{name: "dyn", cfg: c02DynConfig(s, c02Hash(s)%2 == 0), acc: c02Hash(s)%2 == 0, dyn: true},
 	}
 }
@@ -195,6 +203,9 @@ func (c02) Exec(seed int64, i int, tier string) Record {
 	if i >= len(enum) && (i-len(enum))%200 == 77 {
 		return c02NestedCase(r)
 	}
+	if i >= len(enum) && (i-len(enum))%1500 == 333 {
+		return c02HugeCase(r) // class huge (b12_helpers.go)
+	}
 	var s, gen string
 	if i < len(enum) {
 		s, gen = enum[i], c02SectionOf(i)
@@ -250,7 +261,7 @@ func (c02) Exec(seed int64, i int, tier string) Record {
 			viol("error-type", "config %s: Parse returned an undocumented error type %s: %s", c.name, out.ErrKind, out.Msg)
 		}
 		if kind == "notfound" && c.dyn {
-			viol("notfound-registered", "config dyn registers every function name in the text, yet: %s", out.Msg)
+			viol("notfound-registered", "config "+c.name+" registers every function name in the text, yet: %s", out.Msg)
 		}
 		if kind == "notfound" && len(c02FnNames(s)) == 0 {
 			viol("notfound-nofunction", "config %s: function-not-found for a text without any `.name()`: %s", c.name, out.Msg)
